@@ -14,68 +14,83 @@ Inductive req :=
 | RExpr (p : N)
 | RLoop (p : N) (lhs : cexp).
 
-Fixpoint parse (fuel : nat) (r : req) (ts : list tok) : option (cexp * list tok) :=
-  match fuel with
-  | O => None
-  | S f =>
-      match r with
-      | RUnary =>
-          match ts with
-          | TOp BSub :: TOp BSub :: _ => None
-          | TOp BSub :: r1 =>
-              match parse f RUnary r1 with
-              | Some (a, r2) => Some (CNeg a, r2)
-              | None => None
-              end
-          | TBang :: r1 =>
-              match parse f RUnary r1 with
-              | Some (a, r2) => Some (CNot a, r2)
-              | None => None
-              end
-          | TInt n :: r1 => Some (CInt n, r1)
-          | TFlt b s :: r1 => Some (CFlt b s, r1)
-          | TId s :: TLpar :: TRpar :: r1 => Some (CCall0 s, r1)
-          | TId s :: TLpar :: r1 =>
-              match parse f (RExpr 1) r1 with
-              | Some (a, TRpar :: r2) => Some (CCall s a, r2)
-              | _ => None
-              end
-          | TId s :: r1 => Some (CId s, r1)
-          | TLpar :: r1 =>
-              match parse f (RExpr 1) r1 with
-              | Some (a, TRpar :: r2) => Some (CParen false a, r2)
-              | _ => None
+Definition presult := option (cexp * list tok).
+
+(* a parenthesised expression: expr(1) followed by ')' *)
+Definition close_paren (r : presult) (k : cexp -> cexp) : presult :=
+  match r with
+  | Some (a, TRpar :: r2) => Some (k a, r2)
+  | _ => None
+  end.
+
+Definition step (rec : req -> list tok -> presult) (r : req) (ts : list tok) : presult :=
+  match r with
+  | RUnary =>
+      match ts with
+      | TOp o :: r1 =>
+          match o with
+          | BSub =>
+              match r1 with
+              | TOp BSub :: _ => None
+              | _ => match rec RUnary r1 with
+                     | Some (a, r2) => Some (CNeg a, r2)
+                     | None => None
+                     end
               end
           | _ => None
           end
-      | RExpr p =>
-          match parse f RUnary ts with
-          | Some (a, r1) => parse f (RLoop p a) r1
+      | TBang :: r1 =>
+          match rec RUnary r1 with
+          | Some (a, r2) => Some (CNot a, r2)
           | None => None
           end
-      | RLoop p lhs =>
-          match ts with
-          | TOp o :: r1 =>
-              if p <=? bprec o then
-                match parse f (RExpr (bprec o + 1)) r1 with
-                | Some (b, r2) => parse f (RLoop p (CBin o lhs b)) r2
+      | TInt n :: r1 => Some (CInt n, r1)
+      | TFlt b s :: r1 => Some (CFlt b s, r1)
+      | TId s :: r1 =>
+          match r1 with
+          | TLpar :: r2 =>
+              match r2 with
+              | TRpar :: r3 => Some (CCall0 s, r3)
+              | _ => close_paren (rec (RExpr 1) r2) (CCall s)
+              end
+          | _ => Some (CId s, r1)
+          end
+      | TLpar :: r1 => close_paren (rec (RExpr 1) r1) (CParen false)
+      | _ => None
+      end
+  | RExpr p =>
+      match rec RUnary ts with
+      | Some (a, r1) => rec (RLoop p a) r1
+      | None => None
+      end
+  | RLoop p lhs =>
+      match ts with
+      | TOp o :: r1 =>
+          if p <=? bprec o then
+            match rec (RExpr (bprec o + 1)) r1 with
+            | Some (b, r2) => rec (RLoop p (CBin o lhs b)) r2
+            | None => None
+            end
+          else Some (lhs, ts)
+      | TQuest :: r1 =>
+          if p <=? PREC_COND then
+            match rec (RExpr 1) r1 with
+            | Some (m, TColon :: r2) =>
+                match rec (RExpr PREC_COND) r2 with
+                | Some (e, r3) => rec (RLoop p (CCond false lhs m e)) r3
                 | None => None
                 end
-              else Some (lhs, ts)
-          | TQuest :: r1 =>
-              if p <=? PREC_COND then
-                match parse f (RExpr 1) r1 with
-                | Some (m, TColon :: r2) =>
-                    match parse f (RExpr PREC_COND) r2 with
-                    | Some (e, r3) => parse f (RLoop p (CCond false lhs m e)) r3
-                    | None => None
-                    end
-                | _ => None
-                end
-              else Some (lhs, ts)
-          | _ => Some (lhs, ts)
-          end
+            | _ => None
+            end
+          else Some (lhs, ts)
+      | _ => Some (lhs, ts)
       end
+  end.
+
+Fixpoint parse (fuel : nat) : req -> list tok -> presult :=
+  match fuel with
+  | O => fun _ _ => None
+  | S f => step (parse f)
   end.
 
 (* reading a complete expression: all tokens must be consumed *)
